@@ -1,1 +1,213 @@
-//! Black-box driver (filled in later).
+//! Black-box driver: spawns the real binary, feeds it a command script over a pipe, reads stdout.
+
+use serde_json::{json, Value};
+use std::io::{BufRead, BufReader, Write};
+use std::process::{Child, ChildStdin, Command, Stdio};
+use std::sync::mpsc::{channel, Receiver, RecvTimeoutError};
+use std::time::{Duration, Instant};
+
+pub fn engine_path() -> Option<String> {
+    let p = std::env::var("FLOUNDER_BIN").unwrap_or_else(|_| format!("{}/work/engine/release/flounder", crate::verif_dir()));
+    if std::path::Path::new(&p).exists() {
+        Some(p)
+    } else {
+        None
+    }
+}
+
+pub struct Proc {
+    pub child: Child,
+    pub stdin: Option<ChildStdin>,
+    pub rx: Receiver<Option<String>>,
+    pub transcript: Vec<String>,
+    pub eof: bool,
+}
+
+#[derive(Debug)]
+pub enum Wait {
+    Line(String),
+    Eof,
+    Timeout,
+}
+
+impl Proc {
+    pub fn spawn() -> Result<Proc, String> {
+        let path = engine_path().ok_or("engine binary not built")?;
+        let mut child = Command::new(path).stdin(Stdio::piped()).stdout(Stdio::piped()).stderr(Stdio::null()).spawn().map_err(|e| e.to_string())?;
+        let stdin = child.stdin.take();
+        let stdout = child.stdout.take().unwrap();
+        let (tx, rx) = channel();
+        std::thread::spawn(move || {
+            let r = BufReader::new(stdout);
+            for line in r.lines() {
+                match line {
+                    Ok(l) => {
+                        if tx.send(Some(l)).is_err() {
+                            return;
+                        }
+                    }
+                    Err(_) => break,
+                }
+            }
+            let _ = tx.send(None);
+        });
+        Ok(Proc { child, stdin, rx, transcript: Vec::new(), eof: false })
+    }
+
+    pub fn send(&mut self, line: &str) -> bool {
+        if let Some(si) = self.stdin.as_mut() {
+            si.write_all(line.as_bytes()).is_ok() && si.write_all(b"\n").is_ok() && si.flush().is_ok()
+        } else {
+            false
+        }
+    }
+
+    pub fn send_raw(&mut self, bytes: &[u8]) -> bool {
+        if let Some(si) = self.stdin.as_mut() {
+            si.write_all(bytes).is_ok() && si.flush().is_ok()
+        } else {
+            false
+        }
+    }
+
+    pub fn close_stdin(&mut self) {
+        self.stdin = None;
+    }
+
+    pub fn next_line(&mut self, timeout: Duration) -> Wait {
+        if self.eof {
+            return Wait::Eof;
+        }
+        match self.rx.recv_timeout(timeout) {
+            Ok(Some(l)) => {
+                self.transcript.push(l.clone());
+                Wait::Line(l)
+            }
+            Ok(None) => {
+                self.eof = true;
+                Wait::Eof
+            }
+            Err(RecvTimeoutError::Timeout) => Wait::Timeout,
+            Err(RecvTimeoutError::Disconnected) => {
+                self.eof = true;
+                Wait::Eof
+            }
+        }
+    }
+
+    /// Reads lines until one equals `marker` (returned lines exclude the marker).
+    pub fn read_until(&mut self, marker: &str, timeout: Duration) -> Result<Vec<String>, Wait> {
+        let deadline = Instant::now() + timeout;
+        let mut v = Vec::new();
+        loop {
+            let left = deadline.saturating_duration_since(Instant::now());
+            if left.is_zero() {
+                return Err(Wait::Timeout);
+            }
+            match self.next_line(left) {
+                Wait::Line(l) => {
+                    if l.trim_end() == marker {
+                        return Ok(v);
+                    }
+                    v.push(l);
+                }
+                other => return Err(other),
+            }
+        }
+    }
+
+    /// Waits for the process to exit; returns its exit code (None: still alive after `timeout`).
+    pub fn wait_exit(&mut self, timeout: Duration) -> Option<i32> {
+        let deadline = Instant::now() + timeout;
+        loop {
+            match self.child.try_wait() {
+                Ok(Some(st)) => {
+                    use std::os::unix::process::ExitStatusExt;
+                    return Some(st.code().unwrap_or_else(|| 128 + st.signal().unwrap_or(0)));
+                }
+                Ok(None) => {
+                    if Instant::now() >= deadline {
+                        return None;
+                    }
+                    std::thread::sleep(Duration::from_millis(5));
+                }
+                Err(_) => return None,
+            }
+        }
+    }
+
+    /// user+system CPU time of the child so far, in clock ticks (from /proc/<pid>/stat)
+    pub fn cpu_ticks(&self) -> Option<u64> {
+        let s = std::fs::read_to_string(format!("/proc/{}/stat", self.child.id())).ok()?;
+        let after = s.rsplit_once(')')?.1;
+        let f: Vec<&str> = after.split_whitespace().collect();
+        let ut: u64 = f.get(11)?.parse().ok()?;
+        let st: u64 = f.get(12)?.parse().ok()?;
+        Some(ut + st)
+    }
+
+    pub fn kill(&mut self) {
+        let _ = self.child.kill();
+        let _ = self.child.wait();
+    }
+}
+
+impl Drop for Proc {
+    fn drop(&mut self) {
+        self.kill();
+    }
+}
+
+/// Strips the `time <n>` and `nps <n>` fields of an info line (C13 normalisation).
+pub fn normalise(line: &str) -> String {
+    let toks: Vec<&str> = line.split_whitespace().collect();
+    let mut out: Vec<&str> = Vec::new();
+    let mut i = 0;
+    let is_info = toks.first() == Some(&"info");
+    while i < toks.len() {
+        if is_info && (toks[i] == "time" || toks[i] == "nps") && i + 1 < toks.len() {
+            i += 2;
+            continue;
+        }
+        out.push(toks[i]);
+        i += 1;
+    }
+    out.join(" ")
+}
+
+/// Informational only: wall-clock time from `go movetime T` to `bestmove` on the real binary.
+pub fn movetime_timings() -> Option<Value> {
+    engine_path()?;
+    let mut rows = Vec::new();
+    let fens = [
+        "rnbqkbnr/pppppppp/8/8/8/8/PPPPPPPP/RNBQKBNR w KQkq - 0 1",
+        "r3k2r/p1ppqpb1/bn2pnp1/3PN3/1p2P3/2N2Q1p/PPPBBPPP/R3K2R w KQkq - 0 1",
+        "k7/PPPPPPPP/8/8/8/8/pppppppp/K7 w - - 0 1",
+        "3q1q2/1PPPPPP1/k7/8/8/7K/1pppppp1/3Q1Q2 w - - 0 1",
+    ];
+    for fen in fens {
+        for ms in [10u64, 50, 200] {
+            let mut p = Proc::spawn().ok()?;
+            p.send(&format!("position fen {}", fen));
+            p.send("isready");
+            p.read_until("readyok", Duration::from_secs(10)).ok()?;
+            let t0 = Instant::now();
+            p.send(&format!("go movetime {}", ms));
+            let mut took = None;
+            let deadline = Instant::now() + Duration::from_secs(20);
+            while Instant::now() < deadline {
+                match p.next_line(Duration::from_secs(20)) {
+                    Wait::Line(l) if l.starts_with("bestmove") => {
+                        took = Some(t0.elapsed().as_millis() as u64);
+                        break;
+                    }
+                    Wait::Line(_) => {}
+                    _ => break,
+                }
+            }
+            p.send("quit");
+            rows.push(json!({"fen": fen, "movetime_ms": ms, "answered_after_ms": took}));
+        }
+    }
+    Some(json!(rows))
+}
